@@ -24,7 +24,24 @@ def extract(run, args, env=None):
         b = real_at(["extract"] + [str(a) for a in args], env, run.seed)
     else:
         b = fw.run_driver(fw.REAL_BIN, ["extract"] + [str(a) for a in args], run.seed)
-    return xe.Layout(b["outputs"]["layout"]), b
+    L = xe.Layout(b["outputs"]["layout"])
+    if L.perm_mismatch is not None:
+        # the real composer did not register a wire position in the permutation: that position is a
+        # free wire for the prover whatever the rows say.  Reported straight from the real composer's
+        # data (no model involved).
+        import json
+        import os
+        d = os.path.join(fw.OUT, "cex")
+        os.makedirs(d, exist_ok=True)
+        tag = "_".join(str(a) for a in args)
+        path = os.path.join(d, f"{run.prop}_permutation_{tag}.json")
+        json.dump({"property": run.prop, "what": "wire positions of the emitted gates are not the ones registered in "
+                   "the permutation (copy constraints)", "driver": ["extract"] + [str(a) for a in args], "env": env,
+                   "detail": L.perm_mismatch, "replayed": True}, open(path, "w"), indent=1)
+        key = f"permutation/{tag}"
+        if not any(v[0] == key for v in run.violations):
+            run.violations.append((key, path))
+    return L, b
 
 
 def honest_guard(run, name, rowsem, layout, timeout=None):
